@@ -193,6 +193,37 @@ def buf_cases(rng, maxlen, full_pend_calls):
     return lines
 
 
+BIG_LENGTHS = (255, 256, 257, 65535, 65536, 65537, 70000)
+
+
+def buf_big_cases(rng, lengths=BIG_LENGTHS):
+    """Requests around the 8- and 16-bit length boundaries (the exhaustive family stops at single-digit lengths): the whole
+    slice must reach the interface in ONE call of every entry point whatever its length; write_all / read_exact with the
+    interface taking everything at once, everything but one byte, a 16-bit counter's worth, or a random short count."""
+    lines = []
+    for n in lengths:
+        splits = [[n], [n - 1, 1], [1, n - 1], [min(n, 65535)] + ([n - 65535] if n > 65535 else []), [n // 2, n - n // 2]]
+        j = rng.randrange(1, n)
+        splits.append([j, n - j])
+        for op in "WR":
+            for sp in splits:
+                seq = [("k", v) for v in sp if v > 0]
+                for ent in "stau":
+                    pends = tuple(0 if ent in "st" else rng.choice(PENDS) for _ in seq)
+                    lines.append(buf_line(rng, ent, op, n, seq, pends))
+            # ... and ending early: error / zero after a first short call
+            for last in (("e", None), ("k", 0)):
+                seq = [("k", j), last]
+                for ent in "stau":
+                    pends = tuple(0 if ent in "st" else rng.choice(PENDS) for _ in seq)
+                    lines.append(buf_line(rng, ent, op, n, seq, pends))
+        for op in "wr":
+            for o in (("k", n), ("k", n - 1), ("k", min(n, 65535)), ("k", n + 1), ("k", 0), ("e", None)):
+                for ent, p in [("s", 0), ("t", 0), ("a", rng.choice(PENDS)), ("u", rng.choice(PENDS))]:
+                    lines.append(buf_line(rng, ent, op, n, [o], (p,)))
+    return lines
+
+
 def buf_line(rng, ent, op, n, seq, pends):
     addr = rng.choice([0, 9, 0x100, 0xFFFFFFFF])
     buf = rnd_bytes(rng, n)
